@@ -684,7 +684,7 @@ func TestVerifC16Texttab(t *testing.T) {
 		return ok && v.(bool)
 	}
 	main := kit.Class[c16Table]{
-		Name: "texttab-layout", Quick: 20000, Thorough: 2000000,
+		Name: "texttab-layout", Quick: 20000, Thorough: 1500000,
 		Gen:           func(r *kit.Rand, i int) c16Table { return c16GenTable(r, i, false) },
 		Check:         func(c c16Table) *kit.Fail { return c16CheckTable(c, false) },
 		NonTrivial:    nonTrivial,
